@@ -167,7 +167,7 @@ def mk_crit(shape, A, B, C):
 
 def join_cases(tier):
     roles2 = ROLES if tier == "thorough" else ["base", "item", "prev", "absent", "base_twin", "base_other_alias", "none", "declared_cte", "base_other_schema",
-                                                "absent_subquery", "absent_setop", "base_twin_mysql_cls"]
+                                                "absent_subquery", "absent_setop", "base_twin_mysql_cls", "item_twin"]
     for b in BASES:
         for it in ITEMS:
             for pv in PREV:
